@@ -187,6 +187,9 @@ def rule_width_sibling(ctx):
                 c = callee(t)
                 raw = (c.get("res") or c["fn"]) if c else "?"
                 h = md.fns.get(raw) or (md.fns.get(c["fn"]) if c else None)
+                if h is not None and re.search(r"::tendency_(i16|i32)$", h.path):
+                    out["tendency_N"] += 1      # what the two tendency functions compute is decided by R-TENDENCY (evaluation), not by their spelling
+                    continue
                 if h is not None and depth > 0 and not h.tf and h.path.startswith("jxl_modular::transform::") and h is not f:
                     out += sig(h, depth - 1)
                     continue
@@ -201,8 +204,11 @@ def rule_width_sibling(ctx):
         n += 1
         ctx.seen(d["i16"])
         ctx.seen(d["i32"])
-        a, b = sig(d["i16"]), sig(d["i32"])
         k = "pair:%s::%s" % (key[0].split("::")[-1], key[1])
+        if key[1] == "tendency_N":
+            ctx.ok(rid, k, "both are compared with the format's definition by R-TENDENCY (evaluation): one side may be written differently", fn=d["i16"])
+            continue
+        a, b = sig(d["i16"]), sig(d["i32"])
         if a == b:
             ctx.ok(rid, k, "identical operations (%d)" % sum(a.values()), nontrivial=True, fn=d["i16"])
             continue
@@ -409,6 +415,77 @@ def absint_key(path):
     return re.sub(r"\s+", " ", path)
 
 
+def rule_tendency(ctx):
+    """the Squeeze smooth-tendency function, evaluated from MIR in both sample widths, is the format's"""
+    from .. import absint
+    rid = "R-TENDENCY"
+    ctx.rule(rid, "the inverse Squeeze step adds `tendency(A, B, C)` to the residual (ISO/IEC 18181-1, Squeeze): for A >= B >= C, "
+                  "X = (4A - 3C - B + 6) / 12 (truncating), clamped by `X - (X & 1) > 2(A - B) -> 2(A - B) + 1` and `X + (X & 1) > "
+                  "2(B - C) -> 2(B - C)`; mirrored for A <= B <= C; 0 otherwise.  jxl_modular::transform::squeeze::tendency_i32 and "
+                  "tendency_i16 are evaluated from MIR (nothing is run; Wrapping<i32> / Wrapping<i16> arithmetic is interpreted) on "
+                  "14^3 triples whose intermediate values fit 16 bits, and compared with that definition - so the narrow and the wide "
+                  "decode agree with the format, and hence with each other, on those triples")
+    md = ctx.prog.crate("jxl_modular")
+    V = [-2000, -257, -12, -7, -6, -2, -1, 0, 1, 3, 6, 13, 255, 1999]
+
+    def ref(a, b, c):
+        def td(x, y):
+            q = abs(x) // abs(y)
+            return q if (x >= 0) == (y >= 0) else -q
+        if a >= b >= c:
+            x = td(4 * a - 3 * c - b + 6, 12)
+            if x - (x & 1) > 2 * (a - b):
+                x = 2 * (a - b) + 1
+            if x + (x & 1) > 2 * (b - c):
+                x = 2 * (b - c)
+            return x
+        if a <= b <= c:
+            x = td(4 * a - 3 * c - b - 6, 12)
+            if x + (x & 1) < 2 * (a - b):
+                x = 2 * (a - b) - 1
+            if x - (x & 1) < 2 * (b - c):
+                x = 2 * (b - c)
+            return x
+        return 0
+    rows = 0
+    for nm in ("tendency_i32", "tendency_i16"):
+        fs = [g for g in md.fn_list if g.path.endswith("squeeze::" + nm) and g.kind == "Fn"]
+        if len(fs) != 1 or fs[0].argc != 3:
+            ctx.anchor_missing(rid, "jxl_modular::transform::squeeze::%s(a, b, c)" % nm)
+            continue
+        f = fs[0]
+        ctx.seen(f)
+        bad = undec = None
+        n = 0
+        for a in V:
+            for b in V:
+                for c in V:
+                    ev = absint.Evaluator(ctx.prog)
+                    try:
+                        got = ev.call_fn(f, [a, b, c])
+                    except absint.Unsupported as e:
+                        undec = "(%d, %d, %d): %s" % (a, b, c, e)
+                        break
+                    n += 1
+                    want = ref(a, b, c)
+                    if got != want and bad is None:
+                        bad = (a, b, c, got, want)
+                if undec:
+                    break
+            if undec:
+                break
+        rows += n
+        if undec:
+            ctx.bad(rid, nm + "|not-evaluable", "%s is no longer a function the evaluator can decide (%s)" % (nm, undec), fn=f)
+        elif bad:
+            ctx.bad(rid, nm + "|definition", "%s(%d, %d, %d) = %s, the format's tendency is %d: the inverse Squeeze reconstructs other samples than "
+                    "the encoder predicted from" % ((nm,) + bad), fn=f)
+        else:
+            ctx.ok(rid, nm + "|definition", "%d triples equal the format's smooth tendency" % n, nontrivial=True, fn=f)
+    ctx.count(rid + ".rows", rows)
+    ctx.floor(rid + ".rows", 2 * 14 ** 3)
+
+
 def rule_width_branch(ctx):
     """the narrow and the wide branch of every `if self.narrow_modular()` read the same state"""
     from ..facts import op_local, op_place
@@ -507,6 +584,7 @@ def main(pid, tier, repo=None):
     rule_unpack_width(ctx)
     rule_unpack_value(ctx)
     rule_width_branch(ctx)
+    rule_tendency(ctx)
     rule_narrow_saturate(ctx)
     ctx.not_decided("sample-for-sample equality of the two decodes; the arithmetic of the i16 SIMD squeeze kernels against the scalar code "
                     "(head/tail handling per width class); that 16-bit intermediates never overflow for depths up to 12 bits")
